@@ -160,6 +160,16 @@ enum Traffic {
   Heartbeat(i64, i64, i32),
 }
 
+const SCRIPTS: usize = 14;
+
+fn script_is_best_effort(script: usize) -> bool {
+  (7..=9).contains(&script)
+}
+
+fn script_has_two_readers(script: usize) -> bool {
+  script >= 10
+}
+
 fn gen_traffic(script: usize) -> (Vec<Traffic>, BTreeSet<i64>) {
   // small scripts in which the last datagram may be the one that releases samples
   let t = match script {
@@ -169,8 +179,31 @@ fn gen_traffic(script: usize) -> (Vec<Traffic>, BTreeSet<i64>) {
     3 => vec![Traffic::Data(2), Traffic::Gap(1, 2)],
     4 => vec![Traffic::Data(3), Traffic::Data(1), Traffic::Heartbeat(3, 3, 1)],
     5 => vec![Traffic::Data(1), Traffic::Data(2), Traffic::Data(3)],
-    _ => vec![Traffic::Data(2), Traffic::Data(3), Traffic::Gap(1, 2)],
+    6 => vec![Traffic::Data(2), Traffic::Data(3), Traffic::Gap(1, 2)],
+    // 7-9: best-effort reader, holes in the sequence numbers
+    7 => vec![Traffic::Data(1), Traffic::Data(3)],
+    8 => vec![Traffic::Data(2)],
+    9 => vec![Traffic::Data(1), Traffic::Data(2), Traffic::Data(4)],
+    // 10-12: two reliable readers on one topic (one shared topic cache); the consumer owns the second
+    10 => vec![Traffic::Data(1)],
+    11 => vec![Traffic::Data(2), Traffic::Gap(1, 2)],
+    12 => vec![Traffic::Data(2), Traffic::Data(1)],
+    _ => vec![Traffic::Data(2), Traffic::Heartbeat(2, 2, 1)],
   };
+  if script_is_best_effort(script) {
+    // a best-effort reader hands over whatever arrives with an increasing sequence number
+    let mut last = 0;
+    let mut d = BTreeSet::new();
+    for x in &t {
+      if let Traffic::Data(s) = x {
+        if *s > last {
+          d.insert(*s);
+          last = *s;
+        }
+      }
+    }
+    return (t, d);
+  }
   // deliverable at the end
   let mut rcv = BTreeSet::new();
   let mut unavailable = BTreeSet::new();
@@ -227,6 +260,16 @@ fn datagram(t: &Traffic, wguid: GUID, rid: [u8; 4]) -> Vec<u8> {
 }
 
 fn reader_qos() -> QosPolicies {
+  reader_qos_for(false)
+}
+
+fn reader_qos_for(best_effort: bool) -> QosPolicies {
+  if best_effort {
+    return QosPolicyBuilder::new()
+      .reliability(policy::Reliability::BestEffort)
+      .history(policy::History::KeepAll)
+      .build();
+  }
   QosPolicyBuilder::new()
     .reliability(policy::Reliability::Reliable {
       max_blocking_time: Duration::from_millis(100),
@@ -237,7 +280,7 @@ fn reader_qos() -> QosPolicies {
 
 /// Scenarios 0-5. Returns Err((clause, key, detail)).
 fn reader_scenario(scenario: u32, c: &mut Choices, o: &mut Outcome) {
-  let script = c.pick(7);
+  let script = c.pick(SCRIPTS);
   let sched_bytes: Vec<u8> = {
     let n = c.usize_in(0, 60);
     c.bytes(n)
@@ -246,7 +289,22 @@ fn reader_scenario(scenario: u32, c: &mut Choices, o: &mut Outcome) {
 }
 
 fn reader_case(scenario: u32, script: usize, sched_bytes: &[u8], o: &mut Outcome) {
+  hooks::init_logging_from_env();
+  // known finding: a second reader on a topic is not told about samples released by a GAP or
+  // HEARTBEAT (the shared marker was already moved by the first reader)
+  let mut script = script;
+  if matches!(script, 11 | 13) && hooks::excluded("c13.two-readers-gap") {
+    o.excluded += 1;
+    script = 12;
+  }
   let (traffic, deliverable) = gen_traffic(script);
+  let lost_wakeup_key = if script_has_two_readers(script) && traffic.iter().any(|t| !matches!(t, Traffic::Data(_))) {
+    "two-readers-one-topic:gap-or-heartbeat".to_string()
+  } else if script_has_two_readers(script) {
+    format!("two-readers-one-topic:scenario-{scenario}")
+  } else {
+    format!("scenario-{scenario}")
+  };
   let sched_bytes: Vec<u8> = sched_bytes.to_vec();
   o.sample = format!("scenario={scenario} traffic={traffic:?} schedule={sched_bytes:?}");
   o.digest = fnv(o.sample.as_bytes());
@@ -265,14 +323,25 @@ fn reader_case(scenario: u32, script: usize, sched_bytes: &[u8], o: &mut Outcome
       hooks::clock_start();
       hooks::capture_start();
       let mut node = Node::new(0);
-      let ri = node.add_reader(reid, "rig_topic_c13", &reader_qos());
+      let q = reader_qos_for(script_is_best_effort(script));
+      let mut ri = node.add_reader(reid, "rig_topic_c13", &q);
       node
         .reader_mut(ri)
-        .update_writer_proxy(rig::writer_proxy_for(wguid, rig::node_locator(90)), &reader_qos());
+        .update_writer_proxy(rig::writer_proxy_for(wguid, rig::node_locator(90)), &q);
+      let mut reader_ids = vec![eid_bytes(reid)];
+      if script_has_two_readers(script) {
+        // a second reader on the same topic; the application under observation owns this one
+        let reid2 = rig::user_reader_eid(2, true);
+        ri = node.add_reader_sharing(reid2, &q, ri);
+        node
+          .reader_mut(ri)
+          .update_writer_proxy(rig::writer_proxy_for(wguid, rig::node_locator(90)), &q);
+        reader_ids.push(eid_bytes(reid2));
+      }
       let placeholder = RigReader {
         guid: node.readers[ri].guid,
         topic_name: String::new(),
-        qos: reader_qos(),
+        qos: q.clone(),
         topic_cache: node.readers[ri].topic_cache.clone(),
         ends: None,
       };
@@ -281,9 +350,12 @@ fn reader_case(scenario: u32, script: usize, sched_bytes: &[u8], o: &mut Outcome
       sched::install(&p_sched, PRODUCER);
       p_sched.start(PRODUCER);
       for t in &p_traffic {
-        let dg = datagram(t, wguid, eid_bytes(reid));
-        node.inject(&dg);
-        let _ = hooks::capture_drain();
+        // the same submessage reaches every reader on the topic, the first-created reader first
+        for rid in &reader_ids {
+          let dg = datagram(t, wguid, *rid);
+          node.inject(&dg);
+          let _ = hooks::capture_drain();
+        }
         p_sched.yield_point(PRODUCER, 70);
       }
       hooks::yield_uninstall();
@@ -317,6 +389,9 @@ fn reader_case(scenario: u32, script: usize, sched_bytes: &[u8], o: &mut Outcome
     return;
   };
   hooks::clock_start();
+  // virtual clocks are per thread: keep the application's clock ahead of the receive side's,
+  // as a sample is never received after the moment the application looks for it
+  hooks::clock_advance_nanos(1_000_000_000);
   sched::install(&sched, CONSUMER);
   let fw = Arc::new(FlagWaker {
     flag: AtomicBool::new(true),
@@ -351,7 +426,7 @@ fn reader_case(scenario: u32, script: usize, sched_bytes: &[u8], o: &mut Outcome
           if let Some(sn) = left {
             violation = Some((
               "c13.lost-wakeup".into(),
-              format!("scenario-{scenario}"),
+              lost_wakeup_key.clone(),
               format!(
                 "the receive side has finished, the application is parked with no readiness / wake pending, yet sample {sn} is available to it; delivered so far {delivered:?}"
               ),
